@@ -64,6 +64,7 @@ type wOp struct {
 	Fail  bool       `json:"fail,omitempty"`  // start: the generator expects RunHandlers to return an error (a constructor still fails)
 	Early bool       `json:"early,omitempty"` // stop: the following ops marked Win run inside the teardown window (name free, Stopped() not closed yet)
 	Win   bool       `json:"win,omitempty"`
+	Names []string   `json:"names,omitempty"` // startasync: the handlers whose goroutines are held before their copy of r.middlewares
 }
 
 type wCopy struct {
@@ -89,6 +90,7 @@ type wProgram struct {
 	Skipped bool           `json:"skipped"`
 	Seq     bool           `json:"seq"`     // uses the hook runtime (forced teardown window): run alone
 	Windows int            `json:"windows"` // forced windows in which the old teardown goroutine was really parked
+	Snaps   int            `json:"snaps"`   // handler goroutines really held before their copy of r.middlewares until the snap op
 }
 
 func (c *wCopy) rec(ev ...interface{}) {
@@ -550,6 +552,8 @@ func wRunProgram(p *wProgram, in *script.Interner) {
 		return
 	}
 	handles := map[string]*message.Handler{}
+	snapRules := map[string]*hookrt.ParkRule{}
+	snapKeys := map[string]string{}
 	ctx, cancel := context.WithCancel(context.Background())
 	defer cancel()
 	running := false
@@ -629,7 +633,17 @@ func wRunProgram(p *wProgram, in *script.Interner) {
 				ds = append(ds, r.subDecorator(g.ID, g.Fails))
 			}
 			router.AddSubscriberDecorators(ds...)
-		case "start":
+		case "start", "startasync":
+			var rules []*hookrt.ParkRule
+			if o.K == "startasync" && wHookRT != nil {
+				for _, nm := range o.Names {
+					rule := wHookRT.AddRule(&hookrt.ParkRule{Point: "router.wiring.before_snapshot", Keys: []string{nm}, Nth: 0,
+						Until: "harness.snap", UntilKeys: []string{fmt.Sprintf("%p/%s/%d", r, nm, i)}, Timeout: 60 * time.Second})
+					snapKeys[nm] = fmt.Sprintf("%p/%s/%d", r, nm, i)
+					rules = append(rules, rule)
+					snapRules[nm] = rule
+				}
+			}
 			if !running {
 				running = true
 				go func() {
@@ -662,6 +676,32 @@ func wRunProgram(p *wProgram, in *script.Interner) {
 						r.anomaly("RunHandlers returned %v; a failing decorator constructor expected: %v", err, o.Fail)
 					}
 				}()
+			}
+		case "snap":
+			// let handler o.Name's goroutine take its copy of r.middlewares now, and wait until it has
+			from := 0
+			if wHookRT != nil {
+				from = wHookRT.Len()
+				wHookRT.Stamp("harness.snap", snapKeys[o.Name])
+				deadline := time.Now().Add(wPatience)
+				taken := false
+				for !taken && time.Now().Before(deadline) {
+					for _, e := range wHookRT.Log()[from:] {
+						if e.Point == "router.wiring.snapshot_taken" && len(e.Keys) > 0 && e.Keys[0] == o.Name {
+							taken = true
+						}
+					}
+					if !taken {
+						time.Sleep(100 * time.Microsecond)
+					}
+				}
+				if !taken {
+					r.anomaly("handler %q never copied r.middlewares", o.Name)
+				}
+				if rule := snapRules[o.Name]; rule != nil && rule.Parked > 0 && rule.TimedOut == 0 {
+					p.Snaps++
+				}
+				delete(snapRules, o.Name)
 			}
 		case "stop":
 			hd := handles[o.Name]
@@ -999,16 +1039,6 @@ func (g *wGen) unstartedHandlers() []*wHandler {
 // (so that its goroutine has taken its middleware snapshot before the program goes on registering)
 func (g *wGen) start() {
 	waiting := g.unstartedHandlers()
-	if len(waiting) > 1 {
-		// Go starts the waiting handlers in map order; which of them keeps the publisher decorators of an
-		// attempt that failed in a SUBSCRIBER decorator is then not determined: no such failures here
-		for _, o := range g.decs {
-			if o.K == "addsubdec" && g.budget[o.ID] > 0 {
-				o.Fails -= g.budget[o.ID]
-				g.budget[o.ID] = 0
-			}
-		}
-	}
 	for len(waiting) > 0 {
 		f := g.nextFailing()
 		if f == nil {
@@ -1042,6 +1072,52 @@ func (g *wGen) start() {
 		}
 		seen[key] = true
 		g.pushDelivery(g.delivery(h.Sub, h.SubTopic), 0)
+	}
+}
+
+// RunHandlers returns, the new handlers' goroutines are held before their copy of r.middlewares; middlewares
+// (and decorators, which must NOT apply any more) are registered in that window; the copies are released one
+// by one, with further registrations in between and after
+func (g *wGen) startAsync() {
+	waiting := g.unstartedHandlers()
+	var names []string
+	for _, h := range waiting {
+		names = append(names, h.Name)
+		g.started[h.Name] = true
+	}
+	g.op(&wOp{K: "startasync", Names: names})
+	g.running = true
+	g.p.Seq = true
+	reg := func() {
+		g.nextID++
+		switch k := g.pick(6); {
+		case k < 3 || len(g.added) == 0:
+			g.op(&wOp{K: "addmw", ID: g.nextID, App: g.pick(6) == 0})
+		case k < 5:
+			g.op(&wOp{K: "addhmw", Name: g.added[g.pick(len(g.added))].Name, ID: g.nextID})
+		default:
+			o := &wOp{K: []string{"addpubdec", "addsubdec"}[g.pick(2)], ID: g.nextID}
+			g.op(o)
+			g.decs = append(g.decs, o)
+		}
+	}
+	g.rng.Shuffle(len(names), func(a, b int) { names[a], names[b] = names[b], names[a] })
+	for _, nm := range append([]string(nil), names...) {
+		for k := g.pick(4); k > 0; k-- {
+			reg()
+		}
+		g.op(&wOp{K: "snap", Name: nm})
+	}
+	for k := g.pick(3); k > 0; k-- {
+		reg()
+	}
+	seen := map[string]bool{}
+	for _, h := range waiting {
+		key := fmt.Sprintf("%d/%s", h.Sub, h.SubTopic)
+		if !seen[key] {
+			seen[key] = true
+			g.pushDelivery(g.delivery(h.Sub, h.SubTopic), 0)
+		}
 	}
 }
 
@@ -1164,7 +1240,7 @@ func newProgram(rng *rand.Rand, kind string) *wGen {
 // random program: phases of registrations and AddHandler calls, each closed by a start and deliveries
 // stress: 0 = plain mix; 1 = Stop / re-add heavy; 2 = failing decorator constructors heavy
 func genRandom(rng *rand.Rand, maxHandlers, maxRegs int, stress int) *wProgram {
-	g := newProgram(rng, []string{"random", "restart", "faulty"}[stress])
+	g := newProgram(rng, []string{"random", "restart", "faulty", "window"}[stress])
 	g.stress = stress
 	phases := 1 + g.pick(3)
 	if stress > 0 {
@@ -1216,7 +1292,11 @@ func genRandom(rng *rand.Rand, maxHandlers, maxRegs int, stress int) *wProgram {
 		if ph > 0 && g.pick(3) == 0 {
 			g.deliveries() // handlers added while running, RunHandlers not called yet: they must not receive anything
 		}
-		g.start()
+		if stress == 3 && len(g.unstartedHandlers()) > 0 && g.nextFailing() == nil {
+			g.startAsync()
+		} else {
+			g.start()
+		}
 		g.deliveries()
 	}
 	return g.p
@@ -1334,6 +1414,7 @@ func cmdC0809(args []string) error {
 	maxr := fs.Int("maxr", 20, "registrations per random program")
 	nrestart := fs.Int("restart", 60, "programs with Handler.Stop / re-added names")
 	nfaulty := fs.Int("faulty", 60, "programs with failing decorator constructors")
+	nwindow := fs.Int("window", 60, "programs registering between RunHandlers' return and the handler goroutines' copy of r.middlewares")
 	fs.Parse(args)
 	rng := rand.New(rand.NewSource(*seed))
 	in := script.NewInterner()
@@ -1367,6 +1448,9 @@ func cmdC0809(args []string) error {
 	}
 	for i := 0; i < *nfaulty; i++ {
 		progs = append(progs, genRandom(rng, 4, 8, 2))
+	}
+	for i := 0; i < *nwindow; i++ {
+		progs = append(progs, genRandom(rng, 4, 8, 3))
 	}
 	// run them, a few at a time; the ones that force a teardown window afterwards, one at a time
 	sem := make(chan struct{}, 8)
@@ -1411,7 +1495,7 @@ func cmdC0809(args []string) error {
 					p.NameIDs[s] = in.ID(s)
 				}
 			}
-			if o.K == "addhmw" || o.K == "stop" {
+			if o.K == "addhmw" || o.K == "stop" || o.K == "snap" {
 				p.NameIDs[o.Name] = in.ID(o.Name)
 			}
 			if o.D != nil {
